@@ -26,6 +26,7 @@ type totalCase struct {
 	Shape  string `json:"shape"`
 	N      int    `json:"n"`
 	Expect []int  `json:"expect"`
+	DCol   int    `json:"dcol"`
 	NT     bool   `json:"nt"`
 }
 
@@ -302,7 +303,7 @@ func replayTotal(args []string) int {
 		json.Unmarshal(rep.line, &rs)
 		if len(c.Expect) > 0 {
 			// shapes whose outcome the specification states in closed form
-			var out bytes.Buffer
+			var out, lg bytes.Buffer
 			var ierr error
 			func() {
 				defer func() {
@@ -310,8 +311,15 @@ func replayTotal(args []string) int {
 						ierr = fmt.Errorf("PANIC: %v", r)
 					}
 				}()
-				_, _, ierr = bcl.Interpret(src, bcl.OptOutput(&out), bcl.OptLogger(io.Discard))
+				_, _, ierr = bcl.Interpret(src, bcl.OptOutput(&out), bcl.OptLogger(&lg))
 			}()
+			if c.DCol > 0 && ierr != nil {
+				// the diagnostic of the over-long jump sits just after the ')' closing the operand (line 1, column in closed form)
+				first := strings.SplitN(lg.String(), "\n", 2)[0]
+				if want := fmt.Sprintf("line 1:%d: error at ')'", c.DCol); !strings.HasPrefix(first, want) {
+					s.bad(fmt.Sprintf("%s n=%d: the diagnostic reads %q, the offending operand ends at %q", c.Shape, c.N, first, want), "limit:jump-diagnostic-location", raw, first, true)
+				}
+			}
 			want := string(bytesOf(c.Expect))
 			switch {
 			case want == "c" && (ierr == nil || strings.HasPrefix(ierr.Error(), "runtime error")):
